@@ -10,10 +10,11 @@ rundemo() {
   elif [ -f "$D/demo.ns" ]; then cargo run -q --offline --bin naija -- "$D/demo.ns" >"$1" 2>&1; echo "exit=$?";
   else cp "$D/demo_test.rs" tests/demo_test.rs; [ -f "$D/demo.ns" ] && cp "$D/demo.ns" tests/; cargo test -q --offline --features verif --test demo_test >"$1" 2>&1; echo "exit=$?"; rm -f tests/demo_test.rs; fi
 }
-echo "== clean tree demo"; rundemo /tmp/demo-clean.txt; tail -3 /tmp/demo-clean.txt
+echo "== clean tree demo"; rundemo /tmp/demo-clean.$$.txt; tail -3 /tmp/demo-clean.$$.txt
 git apply "$D/patch.diff"
 echo "== build"; cargo build --offline 2>&1 | grep -E "^error|Finished" | head -3
 echo "== tests with the change"; cargo test --workspace --no-fail-fast --offline 2>&1 | grep -E "^test result" | awk '{p+=$4; f+=$6} END {print "passed",p,"failed",f}'
-echo "== demo with the change"; rundemo /tmp/demo-mut.txt; tail -3 /tmp/demo-mut.txt
+echo "== demo with the change"; rundemo /tmp/demo-mut.$$.txt; tail -3 /tmp/demo-mut.$$.txt
 git checkout -q -- .
-cmp -s /tmp/demo-clean.txt /tmp/demo-mut.txt && echo "DEMO OUTPUT IDENTICAL (demo does not distinguish)" || echo "demo output differs"
+cmp -s /tmp/demo-clean.$$.txt /tmp/demo-mut.$$.txt && echo "DEMO OUTPUT IDENTICAL (demo does not distinguish)" || echo "demo output differs"
+rm -f /tmp/demo-clean.$$.txt /tmp/demo-mut.$$.txt
